@@ -186,7 +186,7 @@ pub fn run(args: &[String]) {
     let l: usize = args.get(0).and_then(|s| s.parse().ok()).unwrap_or(4);
     let l2: usize = args.get(1).and_then(|s| s.parse().ok()).unwrap_or(4);
     let ln: usize = args.get(2).and_then(|s| s.parse().ok()).unwrap_or(2);
-    let spaces = [("seq", Space::Seq(l)), ("edits", Space::Edits)];
+    let spaces = [("seq", Space::Seq(l)), ("seqb", Space::SeqB(l)), ("edits", Space::Edits)];
     let per = 50_000usize;
     let mut units: Vec<(usize, usize, usize)> = vec![];
     for (si, (_, sp)) in spaces.iter().enumerate() {
